@@ -502,8 +502,12 @@ func (x *Exec) simple(st *State, fr *frame, ins ssa.Instruction) {
 		x.rangeInit(st, in)
 	case *ssa.Next:
 		x.rangeNext(st, fr, in)
-	case *ssa.MakeMap, *ssa.MapUpdate, *ssa.Lookup:
-		subsetf("map operation %T", ins)
+	case *ssa.MakeMap:
+		x.makeMap(st, in)
+	case *ssa.MapUpdate:
+		x.mapUpdate(st, in)
+	case *ssa.Lookup:
+		x.mapLookup(st, fr, in)
 	default:
 		subsetf("instruction %T", ins)
 	}
